@@ -312,3 +312,79 @@ func regexMayContain(pattern string, forbidden []string, alphabet []rune) (bool,
 	}
 	return false, "", nil
 }
+
+// tableLookup: one consultation of a package-level table of strings used as a set — table[key] on a map, or
+// slices.Contains / slices.Index / slices.BinarySearch / sort.SearchStrings(table, key) on a list.
+type tableLookup struct {
+	Table  *types.Var
+	Name   string
+	Key    ast.Expr
+	Node   ast.Node
+	Sorted bool // the lookup is a binary search: it is only right on a sorted list
+}
+
+func tableLookupsIn(info *types.Info, pkg *types.Package, body ast.Node) []tableLookup {
+	var out []tableLookup
+	pkgVar := func(e ast.Expr) (*types.Var, string) {
+		id, ok := ast.Unparen(e).(*ast.Ident)
+		if !ok {
+			return nil, ""
+		}
+		v, ok := info.ObjectOf(id).(*types.Var)
+		if !ok || v.Parent() != pkg.Scope() {
+			return nil, ""
+		}
+		return v, id.Name
+	}
+	ast.Inspect(body, func(n ast.Node) bool {
+		switch x := n.(type) {
+		case *ast.IndexExpr:
+			if v, nm := pkgVar(x.X); v != nil {
+				if mt, ok := v.Type().Underlying().(*types.Map); ok && mt.Key().String() == "string" {
+					out = append(out, tableLookup{Table: v, Name: nm, Key: x.Index, Node: x})
+				}
+			}
+		case *ast.CallExpr:
+			fn := calleeOf(info, x)
+			if fn == nil || len(x.Args) != 2 {
+				return true
+			}
+			sorted := false
+			switch fullName(fn) {
+			case "slices.Contains", "slices.Index":
+			case "slices.BinarySearch", "sort.SearchStrings":
+				sorted = true
+			default:
+				return true
+			}
+			if v, nm := pkgVar(x.Args[0]); v != nil {
+				out = append(out, tableLookup{Table: v, Name: nm, Key: x.Args[1], Node: x, Sorted: sorted})
+			}
+		}
+		return true
+	})
+	return out
+}
+
+// stringListInOrder: the constant strings of a list literal in the order written (nil when it is not one).
+func stringListInOrder(info *types.Info, e ast.Expr) []string {
+	cl, ok := ast.Unparen(e).(*ast.CompositeLit)
+	if !ok {
+		return nil
+	}
+	if _, isMap := info.TypeOf(cl).Underlying().(*types.Map); isMap {
+		return nil
+	}
+	var out []string
+	for _, el := range cl.Elts {
+		if _, isKV := el.(*ast.KeyValueExpr); isKV {
+			return nil
+		}
+		s, ok := constString(info, el)
+		if !ok {
+			return nil
+		}
+		out = append(out, s)
+	}
+	return out
+}
